@@ -27,17 +27,18 @@ theorem closed_append (h : Heap Val) (n : Cell Val) (hc : Closed h)
   · exact hc c hm v hv
   · subst hm; exact hn v hv
 
-theorem step_closed (ort : Bool) (h h' : Heap Val) (s : Step Val) (hc : Closed h)
-    (hstep : step sem ort h s = some h') : Closed h' := by
+theorem stepBase_closed (ort : Bool) (h h' : Heap Val) (s : Step Val) (hc : Closed h)
+    (hstep : stepBase sem ort h s = some h') : Closed h' := by
   cases s with
+  | guarded op args g choice => simp [stepBase] at hstep
   | data v =>
-    simp only [step, Option.some.injEq] at hstep; subst hstep
+    simp only [stepBase, Option.some.injEq] at hstep; subst hstep
     exact closed_append h _ hc (by intro w hw; simp at hw; subst hw; rfl)
   | placeholder n =>
-    simp only [step, Option.some.injEq] at hstep; subst hstep
+    simp only [stepBase, Option.some.injEq] at hstep; subst hstep
     exact closed_append h _ hc (by intro w hw; simp at hw)
   | prim op args =>
-    simp only [step] at hstep
+    simp only [stepBase] at hstep
     cases hv : varsOf h args with
     | none => simp [hv] at hstep
     | some vars =>
@@ -52,7 +53,7 @@ theorem step_closed (ort : Bool) (h h' : Heap Val) (s : Step Val) (hc : Closed h
       · simp only [Option.some.injEq] at hstep; subst hstep
         exact closed_append h _ hc (by intro w hw; simp at hw)
   | copy r =>
-    simp only [step] at hstep
+    simp only [stepBase] at hstep
     cases hr : h[r]? with
     | none => simp [hr] at hstep
     | some c0 =>
@@ -63,7 +64,7 @@ theorem step_closed (ort : Bool) (h h' : Heap Val) (s : Step Val) (hc : Closed h
       | none => simp [he] at hw
       | some v => simp [he] at hw; subst hw; simp
   | set dst src =>
-    simp only [step] at hstep
+    simp only [stepBase] at hstep
     cases hr : h[src]? with
     | none => simp [hr] at hstep
     | some c0 =>
@@ -75,6 +76,129 @@ theorem step_closed (ort : Bool) (h h' : Heap Val) (s : Step Val) (hc : Closed h
         · exact hc c hm v hv
         · subst hm; exact hc c0 (List.mem_of_getElem? hr) v hv
       · simp at hstep
+
+/-- Lengths: every transition appends exactly one cell, except `set`, which keeps the length. -/
+theorem stepBase_length (ort : Bool) (h h' : Heap Val) (s : Step Val) (hstep : stepBase sem ort h s = some h') :
+    h'.length = (match s with | .set _ _ => h.length | _ => h.length + 1) := by
+  cases s with
+  | guarded op args g choice => simp [stepBase] at hstep
+  | data v => simp only [stepBase, Option.some.injEq] at hstep; subst hstep; simp
+  | placeholder n => simp only [stepBase, Option.some.injEq] at hstep; subst hstep; simp
+  | prim op args =>
+    simp only [stepBase] at hstep
+    cases hv : varsOf h args with
+    | none => simp [hv] at hstep
+    | some vars =>
+      simp only [hv, Option.bind_some] at hstep
+      split at hstep
+      · rename_i vs _
+        cases hsem : sem op vs with
+        | none => simp [hsem] at hstep
+        | some v => simp only [hsem, Option.bind_some, Option.some.injEq] at hstep; subst hstep; simp
+      · simp only [Option.some.injEq] at hstep; subst hstep; simp
+  | copy r =>
+    simp only [stepBase] at hstep
+    cases hr : h[r]? with
+    | none => simp [hr] at hstep
+    | some c0 => simp only [hr, Option.bind_some, Option.some.injEq] at hstep; subst hstep; simp
+  | set dst src =>
+    simp only [stepBase] at hstep
+    cases hr : h[src]? with
+    | none => simp [hr] at hstep
+    | some c0 =>
+      simp only [hr, Option.bind_some] at hstep
+      split at hstep
+      · simp only [Option.some.injEq] at hstep; subst hstep; simp
+      · simp at hstep
+
+/-- Frame: a transition leaves every existing cell untouched, except the explicit target of `set`. -/
+theorem stepBase_frame (ort : Bool) (h h' : Heap Val) (s : Step Val) (hstep : stepBase sem ort h s = some h')
+    (i : Nat) (hi : i < h.length) (hne : ∀ d src, s = .set d src → i ≠ d) : h'[i]? = h[i]? := by
+  cases s with
+  | guarded op args g choice => simp [stepBase] at hstep
+  | data v => simp only [stepBase, Option.some.injEq] at hstep; subst hstep; simp [List.getElem?_append_left hi]
+  | placeholder n => simp only [stepBase, Option.some.injEq] at hstep; subst hstep; simp [List.getElem?_append_left hi]
+  | prim op args =>
+    simp only [stepBase] at hstep
+    cases hv : varsOf h args with
+    | none => simp [hv] at hstep
+    | some vars =>
+      simp only [hv, Option.bind_some] at hstep
+      split at hstep
+      · rename_i vs _
+        cases hsem : sem op vs with
+        | none => simp [hsem] at hstep
+        | some v =>
+          simp only [hsem, Option.bind_some, Option.some.injEq] at hstep; subst hstep
+          simp [List.getElem?_append_left hi]
+      · simp only [Option.some.injEq] at hstep; subst hstep; simp [List.getElem?_append_left hi]
+  | copy r =>
+    simp only [stepBase] at hstep
+    cases hr : h[r]? with
+    | none => simp [hr] at hstep
+    | some c0 =>
+      simp only [hr, Option.bind_some, Option.some.injEq] at hstep; subst hstep
+      simp [List.getElem?_append_left hi]
+  | set dst src =>
+    simp only [stepBase] at hstep
+    cases hr : h[src]? with
+    | none => simp [hr] at hstep
+    | some c0 =>
+      simp only [hr, Option.bind_some] at hstep
+      split at hstep
+      · simp only [Option.some.injEq] at hstep; subst hstep
+        have := hne dst src rfl
+        simp [Ne.symm this]
+      · simp at hstep
+
+/-- Resolving a shortcut never yields a `set`, and leaves every other step alone. -/
+theorem resolve_set (h : Heap Val) (s : Step Val) (d src : Nat) : resolve h s = .set d src ↔ s = .set d src := by
+  cases s with
+  | guarded op args g choice =>
+    simp only [resolve]
+    constructor
+    · intro hh
+      split at hh
+      · split at hh
+        · split at hh <;> cases hh
+        · cases hh
+      · cases hh
+    · intro hh; cases hh
+  | data v => simp [resolve]
+  | placeholder n => simp [resolve]
+  | prim op args => simp [resolve]
+  | copy r => simp [resolve]
+  | set d' s' => simp [resolve]
+
+theorem step_closed (ort : Bool) (h h' : Heap Val) (s : Step Val) (hc : Closed h)
+    (hstep : step sem ort h s = some h') : Closed h' :=
+  stepBase_closed sem ort h h' (resolve h s) hc hstep
+
+theorem step_length (ort : Bool) (h h' : Heap Val) (s : Step Val) (hstep : step sem ort h s = some h') :
+    h'.length = (match s with | .set _ _ => h.length | _ => h.length + 1) := by
+  have := stepBase_length sem ort h h' (resolve h s) hstep
+  cases s with
+  | set d src => simpa [resolve] using this
+  | guarded op args g choice =>
+    have key : ∀ r : Step Val, stepBase sem ort h r = some h' → (∀ d src, r ≠ .set d src) → h'.length = h.length + 1 := by
+      intro r hr hns
+      have h1 := stepBase_length sem ort h h' r hr
+      cases r with
+      | set d src => exact absurd rfl (hns d src)
+      | data v => simpa using h1
+      | placeholder n => simpa using h1
+      | prim op' args' => simpa using h1
+      | copy r' => simpa using h1
+      | guarded _ _ _ _ => simpa using h1
+    exact key _ hstep (fun d src hh => by have := (resolve_set h _ d src).mp hh; cases this)
+  | data v => simpa [resolve] using this
+  | placeholder n => simpa [resolve] using this
+  | prim op args => simpa [resolve] using this
+  | copy r => simpa [resolve] using this
+
+theorem step_frame (ort : Bool) (h h' : Heap Val) (s : Step Val) (hstep : step sem ort h s = some h')
+    (i : Nat) (hi : i < h.length) (hne : ∀ d src, s = .set d src → i ≠ d) : h'[i]? = h[i]? :=
+  stepBase_frame sem ort h h' (resolve h s) hstep i hi (fun d src hh => hne d src ((resolve_set h s d src).mp hh))
 
 theorem run_closed (ort : Bool) : ∀ (steps : List (Step Val)) (h h' : Heap Val), Closed h →
     run sem ort steps h = some h' → Closed h' := by
@@ -90,76 +214,5 @@ theorem run_closed (ort : Bool) : ∀ (steps : List (Step Val)) (h h' : Heap Val
 
 theorem closed_nil : Closed ([] : Heap Val) := by intro c hc; simp at hc
 
-/-- Lengths: every transition appends exactly one cell, except `set`, which keeps the length. -/
-theorem step_length (ort : Bool) (h h' : Heap Val) (s : Step Val) (hstep : step sem ort h s = some h') :
-    h'.length = (match s with | .set _ _ => h.length | _ => h.length + 1) := by
-  cases s with
-  | data v => simp only [step, Option.some.injEq] at hstep; subst hstep; simp
-  | placeholder n => simp only [step, Option.some.injEq] at hstep; subst hstep; simp
-  | prim op args =>
-    simp only [step] at hstep
-    cases hv : varsOf h args with
-    | none => simp [hv] at hstep
-    | some vars =>
-      simp only [hv, Option.bind_some] at hstep
-      split at hstep
-      · rename_i vs _
-        cases hsem : sem op vs with
-        | none => simp [hsem] at hstep
-        | some v => simp only [hsem, Option.bind_some, Option.some.injEq] at hstep; subst hstep; simp
-      · simp only [Option.some.injEq] at hstep; subst hstep; simp
-  | copy r =>
-    simp only [step] at hstep
-    cases hr : h[r]? with
-    | none => simp [hr] at hstep
-    | some c0 => simp only [hr, Option.bind_some, Option.some.injEq] at hstep; subst hstep; simp
-  | set dst src =>
-    simp only [step] at hstep
-    cases hr : h[src]? with
-    | none => simp [hr] at hstep
-    | some c0 =>
-      simp only [hr, Option.bind_some] at hstep
-      split at hstep
-      · simp only [Option.some.injEq] at hstep; subst hstep; simp
-      · simp at hstep
-
-/-- Frame: a transition leaves every existing cell untouched, except the explicit target of `set`. -/
-theorem step_frame (ort : Bool) (h h' : Heap Val) (s : Step Val) (hstep : step sem ort h s = some h')
-    (i : Nat) (hi : i < h.length) (hne : ∀ d src, s = .set d src → i ≠ d) : h'[i]? = h[i]? := by
-  cases s with
-  | data v => simp only [step, Option.some.injEq] at hstep; subst hstep; simp [List.getElem?_append_left hi]
-  | placeholder n => simp only [step, Option.some.injEq] at hstep; subst hstep; simp [List.getElem?_append_left hi]
-  | prim op args =>
-    simp only [step] at hstep
-    cases hv : varsOf h args with
-    | none => simp [hv] at hstep
-    | some vars =>
-      simp only [hv, Option.bind_some] at hstep
-      split at hstep
-      · rename_i vs _
-        cases hsem : sem op vs with
-        | none => simp [hsem] at hstep
-        | some v =>
-          simp only [hsem, Option.bind_some, Option.some.injEq] at hstep; subst hstep
-          simp [List.getElem?_append_left hi]
-      · simp only [Option.some.injEq] at hstep; subst hstep; simp [List.getElem?_append_left hi]
-  | copy r =>
-    simp only [step] at hstep
-    cases hr : h[r]? with
-    | none => simp [hr] at hstep
-    | some c0 =>
-      simp only [hr, Option.bind_some, Option.some.injEq] at hstep; subst hstep
-      simp [List.getElem?_append_left hi]
-  | set dst src =>
-    simp only [step] at hstep
-    cases hr : h[src]? with
-    | none => simp [hr] at hstep
-    | some c0 =>
-      simp only [hr, Option.bind_some] at hstep
-      split at hstep
-      · simp only [Option.some.injEq] at hstep; subst hstep
-        have := hne dst src rfl
-        simp [Ne.symm this]
-      · simp at hstep
 
 end Ndx.Heap
